@@ -189,6 +189,11 @@ def string_replace_map(line, lower=False):
             if key is None:
                 str_idx += 1
                 key = "_F2PY_STRING_CONSTANT_{0}_".format(str_idx)
+                while key in line:
+                    # The line itself holds this text (e.g. in a string):
+                    # take the next index so that the key stays unique.
+                    str_idx += 1
+                    key = "_F2PY_STRING_CONSTANT_{0}_".format(str_idx)
                 string_map[key] = trimmed
                 rev_quote_map[trimmed] = key
             items.append(item[0] + key + item[-1])
@@ -206,6 +211,9 @@ def string_replace_map(line, lower=False):
         if key is None:
             const_idx += 1
             key = "F2PY_REAL_CONSTANT_{0}_".format(const_idx)
+            while key in line:
+                const_idx += 1
+                key = "F2PY_REAL_CONSTANT_{0}_".format(const_idx)
             string_map[key] = found
             rev_string_map[found] = key
             const_keys.append(key)
@@ -222,6 +230,9 @@ def string_replace_map(line, lower=False):
             if key is None:
                 parens_idx += 1
                 key = "F2PY_EXPR_TUPLE_{0}".format(parens_idx)
+                while key in line:
+                    parens_idx += 1
+                    key = "F2PY_EXPR_TUPLE_{0}".format(parens_idx)
                 string_map[key] = trimmed
                 rev_paren_map[trimmed] = key
                 expr_keys.append(key)
